@@ -352,6 +352,8 @@ func catalogue() []variantSpec {
 	// two cooperating Byzantine peers (twostep.go)
 	vs = append(vs, variantSpec{"preseed-instant", "", []int{2, 5}, 1, false},
 		variantSpec{"two-mismatch-then-honest", "", []int{0, 1, 3}, -1, false})
+	// (the illegal request for the transactions of a stored v1 block needs a victim holding v1 blocks)
+	vs = append(vs, variantSpec{"malformed", "req-txns-of-stored-block", []int{0, 3}, 0, false})
 	for _, f := range malformedKinds {
 		vs = append(vs, variantSpec{"malformed", f, any6, 0, false})
 	}
@@ -445,6 +447,10 @@ func genOne(c *hx.Ctx, v variantSpec, i int) (Scen, bool) {
 					}
 				case "preseed-instant":
 					if vn.Parent == nil || vn.Block.V2 == nil {
+						continue
+					}
+				case "malformed":
+					if v.field == "req-txns-of-stored-block" && vn.Parent == nil {
 						continue
 					}
 				case "relay-header", "relay-outline", "relay-txns":
